@@ -115,9 +115,15 @@ struct obj_features
     {
         return dim;
     }
+    // like a user's callback that fills the vector it is handed element by element: the library must pass a vector
+    // of size dimension() ("the callback should put the feature vector ... to the provided vector")
     void vector(const Obj& a, DenseVector& v) const
     {
-        v = a.x;
+        if (v.size() != dim)
+            throw std::logic_error("features callback was handed a vector of size " + std::to_string(v.size()) +
+                                   ", dimension() is " + std::to_string(dim));
+        for (IndexType r = 0; r < dim; ++r)
+            v(r) = a.x(r);
     }
 };
 #endif
